@@ -94,6 +94,7 @@ func (c cfg) spec() *hlib.RunSpec {
 	}
 	rs.ScenarioFn = func(t *f1testing.T) f1testing.RunFn {
 		vrt.LogQuiet("setup")
+		t.Cleanup(func() { vrt.LogQuiet("setup-cleanup") })
 		switch c.setup {
 		case "fail":
 			t.FailNow()
@@ -101,7 +102,9 @@ func (c cfg) spec() *hlib.RunSpec {
 			panic("setup panics")
 		}
 		return func(t *f1testing.T) {
-			vrt.LogQuiet("begin " + t.Iteration)
+			id := t.Iteration
+			vrt.LogQuiet("begin " + id)
+			t.Cleanup(func() { vrt.LogQuiet("cleanup " + id) })
 			switch c.body {
 			case "sleep30":
 				vtime.Sleep(30 * time.Millisecond)
@@ -182,6 +185,8 @@ func oracle(c cfg, o *vrt.Outcome) {
 	var retClock int64
 	nbegin := 0
 	var stopClock int64 = -1
+	tornDown := false
+	cleaned := map[string]bool{}
 	for li, ev := range o.Log {
 		f := strings.Fields(ev)
 		switch {
@@ -200,6 +205,19 @@ func oracle(c cfg, o *vrt.Outcome) {
 			open[f[1]] = true
 		case f[0] == "end":
 			delete(open, f[1])
+			if tornDown && !timeoutFired {
+				o.Fail("C05/teardown-not-last", "body-end-after-setup-cleanup", "an iteration finished after the setup cleanups had run, without the completion timeout expiring: "+ev)
+			}
+		case f[0] == "cleanup":
+			cleaned[f[1]] = true
+			if tornDown && !timeoutFired {
+				o.Fail("C05/teardown-not-last", "cleanup-after-setup-cleanup", "an iteration's cleanup ran after the setup cleanups, without the completion timeout expiring: "+ev)
+			}
+		case ev == "setup-cleanup":
+			tornDown = true
+			if returned {
+				o.Fail("C05/teardown-not-last", "after-return", "setup cleanups ran after Do returned")
+			}
 		case ev == "display progress":
 			if returned {
 				o.Fail("C05/progress-after-return", "display", "progress was reported after Do returned")
@@ -228,6 +246,9 @@ func oracle(c cfg, o *vrt.Outcome) {
 	// Only on the default schedule: under deviations the goroutine that turns the
 	// cancellation into the pool's stop flag may itself be the slow one, and the
 	// statement does not bound scheduling latency.
+	if returned && !tornDown {
+		o.Fail("C05/teardown-not-last", "never", "Do returned but the setup cleanups never ran")
+	}
 	if o.Cost == 0 && beginsAfterStop > c.conc {
 		o.Fail("C05/starts-after-stop", "more-than-workers", fmt.Sprintf("%d iterations started after the run announced it had stopped triggering (concurrency %d)", beginsAfterStop, c.conc))
 	}
